@@ -179,13 +179,7 @@ def _(c):
     c.only_raises('ManifestMismatch', 'OSError', 'UnsupportedHash', 'ManifestSyntaxError', 'ManifestUnsignedData',
                   'AssertionError', '<opaque>')
 
-    def modifies(it, bound):
-        ctx = it.ctx
-        me = bound['self']
-        for f in ('loaded_manifests', 'updated_manifests', 'manifest_device'):
-            ty = it.engine.field_type(f)
-            ctx.heap[f] = z3.Store(ctx.field_array(f), me.t, ctx.fresh_const('lm!' + f, ty.sort()))
-    c.modifies(modifies)
+    c.modifies(('self', 'loaded_manifests'), ('self', 'updated_manifests'), ('self', 'manifest_device'))
 
     def setup(it, fr, bound):
         # A-fs: the second component of verify_and_load's result is the os.fstat() result of the Manifest; its st_dev is an int
@@ -229,6 +223,8 @@ def _(c):
 @contract('gemato/recursiveloader.py', 'ManifestRecursiveLoader.save_manifest', props=['C14', 'C10', 'C13', 'C18'])
 def _(c):
     c.params(self=RL, relpath=Str, sort=Bool)
+    # the Manifest object being written may get its entries sorted (dump), the opened file receives the text
+    c.modifies(('*', 'entries'), ('*', '_written'))
     c.returns(Int)
     c.only_raises('OSError', 'AssertionError', '<opaque>')
     c.requires('manifest-is-loaded',
@@ -802,6 +798,9 @@ def _lookup_model(it, bound, node):
         e = VExc('OSError', [], {}, line=getattr(node, 'lineno', None))
         e.attrs['errno'] = VInt(ctx.fresh_const('errno', z3.IntSort()))
         raise PyRaise(e)
+    # further Manifests may have been loaded on the way (same footprint as the verified body declares)
+    ty = it.engine.field_type('loaded_manifests')
+    ctx.heap['loaded_manifests'] = z3.Store(ctx.field_array('loaded_manifests'), bound['self'].t, ctx.fresh_const('fpe!loaded', ty.sort()))
     return Opt(PathEntry).fresh(ctx, 'found_entry')
 
 
@@ -823,6 +822,7 @@ def _checks_this_path(s, args, kwargs, raw):
 @contract('gemato/recursiveloader.py', 'ManifestRecursiveLoader.verify_path', props=['C01', 'C16', 'C18'])
 def _(c):
     c.params(self=RL, relpath=Str)
+    c.modifies(('self', 'loaded_manifests'))
     c.returns(Any)
     c.only_raises(*GEMATO_ERRORS)
     c.site('checks-the-file-under-the-root-with-its-entry-and-the-manifest-device', 'verify_path', _checks_this_path,
@@ -832,6 +832,7 @@ def _(c):
 @contract('gemato/recursiveloader.py', 'ManifestRecursiveLoader.assert_path_verifies', props=['C01', 'C16', 'C18'])
 def _(c):
     c.params(self=RL, relpath=Str)
+    c.modifies(('self', 'loaded_manifests'))
     c.returns(NoneT)
     c.only_raises(*GEMATO_ERRORS)
     c.site('checks-the-file-under-the-root-with-its-entry-and-the-manifest-device', 'verify_path', _checks_this_path,
@@ -883,6 +884,11 @@ def _(c):
              openpgp_keyid=Opt(Str), hashes=Opt(SeqT(Str)), allow_create=Bool, sort=Opt(Bool), compress_watermark=Opt(Int),
              compress_format=Opt(Str), profile=Obj('DefaultProfile', 'EbuildRepositoryProfile', 'BackwardsCompatEbuildRepositoryProfile'),
              max_jobs=Opt(Int), allow_xdev=Bool)
+    # the constructor fills in the attributes of the new loader and nothing else that existed before
+    c.modifies(*[('self', f) for f in ('compress_format', 'compress_watermark', 'hashes', 'loaded_manifests', 'manifest_device',
+                                       'manifest_loader', 'max_jobs', 'openpgp_env', 'openpgp_keyid', 'profile', 'root_directory',
+                                       'sign_openpgp', 'sort', 'top_level_manifest_filename', 'updated_manifests', 'verify_openpgp',
+                                       'openpgp_signed', 'openpgp_signature')])
     c.returns(NoneT)
     c.only_raises('ManifestMismatch', 'OSError', 'UnsupportedHash', 'ManifestSyntaxError', 'ManifestUnsignedData',
                   'AssertionError', '<opaque>')
@@ -1038,6 +1044,8 @@ def _loader_find_path_entry():
     del REGISTRY_[('gemato/recursiveloader.py', 'ManifestRecursiveLoader.find_path_entry.body')]
     c.trusted = False        # the body is verified; callers keep the call-site model above (a weaker view of it)
     c.props[:] = ['C01', 'C15', 'C18']
+    # write footprint of the body (checked); the call-site model above forgets the same cell
+    c.modifies(('self', 'loaded_manifests'))
     c.returns(Opt(PathEntry))
     c.force_result = True
     c.only_raises(*GEMATO_ERRORS)
@@ -1076,6 +1084,7 @@ def _first_match_contract(qual, header_outer, tuple_vars, match, name, props, pa
     @contract('gemato/recursiveloader.py', qual, props=props)
     def _(c):
         c.params(**params)
+        c.modifies(('self', 'loaded_manifests'))
         c.returns(Opt(Entry))
         c.force_result = True
         c.only_raises(*GEMATO_ERRORS)
@@ -1120,6 +1129,9 @@ _first_match_contract('ManifestRecursiveLoader.find_dist_entry',
 @contract('gemato/recursiveloader.py', 'ManifestRecursiveLoader.set_timestamp', props=['C11', 'C10', 'C18'])
 def _(c):
     c.params(self=RL, ts=Any)
+    # an existing TIMESTAMP entry is updated in place, a new one is appended to the top-level Manifest: objects reached
+    # through the loader, not parameters
+    c.modifies(('self', 'loaded_manifests'), ('*', 'ts'), ('*', 'entries'))
     c.returns(NoneT)
     c.only_raises(*(GEMATO_ERRORS + ['KeyError']))
     c.note('KeyError: only if the top-level Manifest is not loaded (it always is after __init__)')
@@ -1160,6 +1172,7 @@ def _load_for_path_body():
     c = REGISTRY_[('gemato/recursiveloader.py', 'ManifestRecursiveLoader.load_manifests_for_path')]
     c.trusted = False       # callers keep the call-site model
     c.props[:] = ['C02', 'C18']
+    c.modifies(('self', 'loaded_manifests'))      # the cell the call-site model forgets
     c.returns(NoneT)
     c.only_raises(*GEMATO_ERRORS)
     ToLoad = ListT(TupleT(Str, Opt(PathEntry)))
@@ -1191,7 +1204,7 @@ def _load_for_path_body():
 
     c.loop(1, header='while True', vars={'to_load': None, 'e': None, 'mpath': None, 'mdir': None, 'manifests': None,
                                          'curmpath': None, 'relpath': None, 'm': None},
-           havoc_fields=['loaded_manifests'], inv=[('true', lambda s: z3.BoolVal(True))])
+           havoc_fields=[('self', 'loaded_manifests')], inv=[('true', lambda s: z3.BoolVal(True))])
     c.loop(2, header='for (curmpath, relpath, m) in self._iter_manifests_for_path(path, recursive)',
            vars={'to_load': ToLoad, 'e': None, 'mpath': None, 'mdir': None},
            inv=[('true', lambda s: z3.BoolVal(True))])
